@@ -17,6 +17,8 @@
 (***************************************************************************)
 EXTENDS PropagateAnchors, TLC
 
+CONSTANT Full          \* FALSE: reduced scope for the quick tier
+
 VARIABLES pc, aA, m1A, m2A, cComps, cOwn, cLig, cMark, dKind
 vars == <<pc, aA, m1A, m2A, cComps, cOwn, cLig, cMark, dKind>>
 
@@ -57,39 +59,57 @@ GS ==
 ENV == [cps |-> [s \in NamesAll |-> CpsOf(s)], marks |-> (IF cMark THEN {CName} ELSE {}) \cup {"m1", "m2"}, ligmark |-> IF cLig THEN {CName} ELSE {}]
 
 Init == /\ pc = 0 /\ aA = {} /\ m1A = {"_top"} /\ m2A = {"_top"} /\ cComps = <<>> /\ cOwn = {} /\ cLig = FALSE /\ cMark = FALSE /\ dKind = 0
-Pick == /\ pc = 0 /\ pc' = 1
-        /\ aA' \in SUBSET {"top", "bottom"}
-        /\ m1A' \in {{"_top"}, {"_top", "top"}}
-        /\ m2A' \in {{"_top"}, {"_bottom", "bottom"}, {"_top", "top"}}
-        /\ cComps' \in UNION {[1..n -> {"a", "m1", "m2"} \X BOOLEAN] : n \in 1..2}
-        /\ cOwn' \in SUBSET {"top", "top_1"}
-        /\ cLig' \in BOOLEAN /\ cMark' \in BOOLEAN /\ dKind' \in 0..2
-Next == Pick
+\* two steps, so that the second one is spread over the workers
+PickBases == /\ pc = 0 /\ pc' = 5
+             /\ aA' \in (IF Full THEN SUBSET {"top", "bottom"} ELSE {{}, {"top"}, {"top", "bottom"}})
+             /\ m1A' \in {{"_top"}, {"_top", "top"}}
+             /\ m2A' \in (IF Full THEN {{"_top"}, {"_bottom", "bottom"}, {"_top", "top"}} ELSE {{"_top"}, {"_bottom", "bottom"}})
+             /\ cLig' \in BOOLEAN /\ cMark' \in BOOLEAN /\ dKind' \in (IF Full THEN 0..2 ELSE {0, 2})
+             /\ UNCHANGED <<cComps, cOwn>>
+PickComposite == /\ pc = 5 /\ pc' = 1
+                 /\ cComps' \in UNION {[1..n -> {"a", "m1", "m2"} \X BOOLEAN] : n \in 1..2}
+                 /\ cOwn' \in (IF Full THEN SUBSET {"top", "top_1"} ELSE {{}, {"top_1"}, {"top"}})
+                 /\ UNCHANGED <<aA, m1A, m2A, cLig, cMark, dKind>>
+Next == PickBases \/ PickComposite
 Spec == Init /\ [][Next]_vars
 
-Inc == DOMAIN GS
-After == LET m == PropagateModelAnchors(GS, ENV, Inc)
-         IN [n \in DOMAIN GS |-> [GS[n] EXCEPT !.anchors = [k \in 1..Len(m[n]) |-> [n |-> m[n][k].n, x |-> m[n][k].x, y |-> m[n][k].y, stem |-> Stem(m[n][k].n)]]]]
-Before == [n \in DOMAIN GS |-> [GS[n] EXCEPT !.anchors = [k \in 1..Len(GS[n].anchors) |->
-                                   [n |-> GS[n].anchors[k].n, x |-> GS[n].anchors[k].x, y |-> GS[n].anchors[k].y, stem |-> Stem(GS[n].anchors[k].n)]]]]
-Modelled == PropagateModelled(GS, ENV, Inc)
+\* Everything expensive is bound ONCE per state in a LET (TLC re-evaluates module-level definitions at every use).
+WithStamps(gs, anchors) == TLCEval([n \in DOMAIN gs |-> [gs[n] EXCEPT !.anchors = [k \in 1..Len(anchors[n]) |->
+                              [n |-> anchors[n][k].n, x |-> anchors[n][k].x, y |-> anchors[n][k].y, stem |-> Stem(anchors[n][k].n)]]]])
+Verdict ==
+  LET gs == GS
+      env == ENV
+      inc == DOMAIN gs
+      modelled == PropagateModelled(gs, env, inc)
+      m == PropagateModelAnchors(gs, env, inc)
+      before == WithStamps(gs, [n \in DOMAIN gs |-> NXY(gs[n].anchors)])
+      after == WithStamps(gs, m)
+      again == PropagateModelAnchors(after, env, inc)
+  IN IF ~modelled THEN [modelled |-> FALSE, onlyAppended |-> TRUE, follows |-> TRUE, noDup |-> TRUE, neverOverrides |-> TRUE, idempotent |-> TRUE, complete |-> TRUE]
+     ELSE
+     [modelled |-> TRUE,
+      onlyAppended |-> \A n \in DOMAIN gs : Len(after[n].anchors) >= Len(before[n].anchors)
+                                              /\ SubSeq(after[n].anchors, 1, Len(before[n].anchors)) = before[n].anchors,
+      follows |-> \A n \in DOMAIN gs : \A i \in (Len(before[n].anchors) + 1)..Len(after[n].anchors) :
+                     LET a == after[n].anchors[i] IN
+                     \E k \in 1..Len(gs[n].comps) : LET c == gs[n].comps[k] IN
+                        \E j \in 1..Len(after[c.b].anchors) : LET b == after[c.b].anchors[j] IN
+                           (b.n = a.n \/ b.n = a.stem) /\ AppXY(Tr(c), b.x, b.y) = <<a.x, a.y>>,
+      noDup |-> \A n \in DOMAIN gs : \A i, j \in 1..Len(after[n].anchors) :
+                   (i # j /\ after[n].anchors[i].n = after[n].anchors[j].n) => (i <= Len(before[n].anchors) /\ j <= Len(before[n].anchors)),
+      neverOverrides |-> \A n \in DOMAIN gs : \A i \in (Len(before[n].anchors) + 1)..Len(after[n].anchors) :
+                            \A j \in 1..Len(before[n].anchors) : before[n].anchors[j].n # after[n].anchors[i].n,
+      idempotent |-> \A n \in DOMAIN gs : again[n] = NXY(after[n].anchors),
+      complete |-> AnchorsComplete(before, after, env, inc)]
 
-\* ---- the clauses of C15 on the model ---------------------------------------------------------
-OnlyAppended == (pc = 1 /\ Modelled) =>
-  \A n \in DOMAIN GS : Len(After[n].anchors) >= Len(Before[n].anchors) /\ SubSeq(After[n].anchors, 1, Len(Before[n].anchors)) = Before[n].anchors
-Follows == (pc = 1 /\ Modelled) =>
-  \A n \in DOMAIN GS : \A i \in (Len(Before[n].anchors) + 1)..Len(After[n].anchors) :
-     LET a == After[n].anchors[i] IN
-     \E k \in 1..Len(GS[n].comps) : LET c == GS[n].comps[k] IN
-        \E j \in 1..Len(After[c.b].anchors) : LET b == After[c.b].anchors[j] IN
-           (b.n = a.n \/ b.n = a.stem) /\ AppXY(Tr(c), b.x, b.y) = <<a.x, a.y>>
-NoDuplicateName == (pc = 1 /\ Modelled) =>
-  \A n \in DOMAIN GS : \A i, j \in 1..Len(After[n].anchors) : (i # j /\ After[n].anchors[i].n = After[n].anchors[j].n) => (i <= Len(Before[n].anchors) /\ j <= Len(Before[n].anchors))
-NeverOverrides == (pc = 1 /\ Modelled) =>
-  \A n \in DOMAIN GS : \A i \in (Len(Before[n].anchors) + 1)..Len(After[n].anchors) :
-     \A j \in 1..Len(Before[n].anchors) : Before[n].anchors[j].n # After[n].anchors[i].n
-Idempotent == (pc = 1 /\ Modelled) =>
-  LET again == PropagateModelAnchors(After, ENV, Inc) IN \A n \in DOMAIN GS : again[n] = NXY(After[n].anchors)
-Complete == (pc = 1 /\ Modelled) => AnchorsComplete(Before, After, ENV, Inc)
-ModelledOften == pc = 1 => TRUE
+\* ---- the clauses of C15 on the model (one state = one glyph set) ---------------------------------
+OnlyAppended == pc = 1 => Verdict.onlyAppended
+Follows == pc = 1 => Verdict.follows
+NoDuplicateName == pc = 1 => Verdict.noDup
+NeverOverrides == pc = 1 => Verdict.neverOverrides
+Idempotent == pc = 1 => Verdict.idempotent
+Complete == pc = 1 => Verdict.complete
+AllClauses == pc = 1 => LET v == Verdict IN v.onlyAppended /\ v.follows /\ v.noDup /\ v.neverOverrides /\ v.idempotent /\ v.complete
+\* non-vacuity: the strict configuration claims that no glyph set is modelled and must fail
+NeverModelled == pc = 1 => ~Verdict.modelled
 =============================================================================
